@@ -3,6 +3,8 @@
 package cache
 
 import (
+	"time"
+
 	"github.com/miekg/dns"
 	"github.com/semihalev/sdns/middleware"
 )
@@ -18,4 +20,17 @@ func VerifC06ServeWire(e *CacheEntry, req *dns.Msg, reserve int, do bool) ([]byt
 // eligible, hasDNSSEC, chaseSafe, and whether a stripped body was prepared.
 func VerifC06WireFlags(e *CacheEntry) (eligible, hasDNSSEC, chaseSafe, stripped bool) {
 	return e.wireServe&wireEligible != 0, e.wireServe&wireHasDNSSEC != 0, e.wireServe&wireChaseSafe != 0, e.stripped != nil
+}
+
+// VerifC06WireCounters reads the byte-path counters (accessor only): replies
+// composed by the wire alias chase, and chase attempts that declined.
+func VerifC06WireCounters() (chaseServed, chaseSkipped int64) {
+	return wireChaseServed.Value(), wireSkipChase.Value()
+}
+
+// VerifC06Seed admits a response under its own question's shared key, the way
+// the cache's response writer does for an unscoped answer (accessor only).
+func VerifC06Seed(c *Cache, m *dns.Msg) {
+	key := CacheKey{Question: m.Question[0], CD: m.CheckingDisabled}.Hash()
+	c.store.SetFromResponseWithKey(key, m, time.Time{}, 0)
 }
